@@ -63,7 +63,7 @@ type Target struct {
 	sync            bool               // denotes whether this cache is in sync with target
 	meta            *metadata.Metadata // metadata associated with target
 	lat             *latency.Latency   // latency measurements
-	tsmu            sync.Mutex         // protects latest timestamp
+	tsmu            sync.Mutex         // protects latest timestamp and the sync flag
 	ts              time.Time          // latest timestamp for an update
 	excludedMeta    stringset.Set      // set of metadata not to generate update for
 	futureThreshold time.Duration      // how far in the future an update can be accepted
@@ -498,6 +498,21 @@ func (t *Target) checkTimestamp(ts time.Time) {
 	}
 }
 
+// setSync and isSync guard the sync flag: it is written by whichever goroutine
+// stores a meta/sync leaf (the update stream, but also the periodic metadata
+// refresh) and read by the update stream.
+func (t *Target) setSync(v bool) {
+	t.tsmu.Lock()
+	t.sync = v
+	t.tsmu.Unlock()
+}
+
+func (t *Target) isSync() bool {
+	t.tsmu.Lock()
+	defer t.tsmu.Unlock()
+	return t.sync
+}
+
 func (t *Target) resetTimestamp() {
 	defer t.tsmu.Unlock()
 	t.tsmu.Lock()
@@ -531,8 +546,8 @@ func (t *Target) gnmiUpdate(n *pb.Notification) (*ctree.Leaf, error) {
 			if !ok {
 				return nil, fmt.Errorf("%v : has value %v of type %T, expected boolean", metadata.Path(metadata.Sync), u.Val, u.Val)
 			}
-			t.sync = tv.BoolVal
-			t.meta.SetBool(metadata.Sync, t.sync)
+			t.setSync(tv.BoolVal)
+			t.meta.SetBool(metadata.Sync, tv.BoolVal)
 		case metadata.Connected:
 			tv, ok := u.Val.Value.(*pb.TypedValue_BoolVal)
 			if !ok {
@@ -591,7 +606,7 @@ func (t *Target) gnmiUpdate(n *pb.Notification) (*ctree.Leaf, error) {
 			return nil, nil
 		}
 		// Compute latency for updated leaves.
-		if t.sync && realData {
+		if realData && t.isSync() {
 			// Record latency for post-sync target updates.  Exclude metadata updates.
 			t.lat.Compute(T(n.GetTimestamp()))
 		}
@@ -605,7 +620,7 @@ func (t *Target) gnmiUpdate(n *pb.Notification) (*ctree.Leaf, error) {
 		t.meta.AddInt(metadata.LeafCount, 1)
 		t.meta.AddInt(metadata.AddCount, 1)
 		// Compute latency for new leaves.
-		if t.sync {
+		if t.isSync() {
 			// Record latency for post-sync target updates.  Exclude metadata updates.
 			t.lat.Compute(T(n.GetTimestamp()))
 		}
